@@ -305,10 +305,18 @@ pub fn property() -> Property {
         subs: vec![prop_sub(
             "reads",
             "requests of all roles with generated stream contents and management records mid-stream x sequences of poll_read(len 0..n) / poll_fill_buf+consume(k) / set_stream(next) / writeable() (to completion or cancelled after k polls) / output_stream+write x reader scripts (1..n bytes, Pending) x writer scripts (1..n bytes, Pending); delivered bytes must equal the active stream's content in order, end-of-file only at the true end and persistent, nothing from other streams, writeable gate, log intact; non-trivial = direct and buffered reads mixed with >=1 not-ready result from the reader (and from the writer when replies were flushed); distinct = hash of the case",
-            30_000,
-            800_000,
+            300_000,
+            6_000_000,
             |_| case_strategy(),
             test,
+        ),
+        prop_sub(
+            "reads_beside_writers",
+            "the C10 harness seen from the reader: Request::poll_read (buffer sizes 0..16, abandoned after k not-ready results in some cases) on one task while 1..3 StreamWriters on other tasks hold the output lock across Pending and short writes, management records ahead of and between the stdin records so that replies must be flushed under contention; every byte delivered must be the next byte of the stdin stream, no end-of-file before the stream ends, the reader is woken when the lock is released; non-trivial as in C10 (>=2 writers and the lock contended mid-record); distinct = hash of the case",
+            100_000,
+            2_000_000,
+            |_| crate::props::c10::case_strategy(),
+            crate::props::c10::test,
         )],
     }
 }
